@@ -415,7 +415,7 @@ fn probes(kind: Kind) -> Vec<History> {
 
 fn random_history(kind: Kind, rng: &mut Rng, pool: &[u64]) -> History {
     let now0 = if rng.chance(1, 8) { GENESIS - rng.range(1, 100) } else { T0 + rng.below(50) };
-    let st = now0 + rng.range(1, 60);
+    let st = now0 + rng.range(10, 80);
     let en = st + rng.below(60);
     let mut init = base_init(kind, now0, st, en);
     init.pal = rng.range(1, 30) as u32;
@@ -425,12 +425,14 @@ fn random_history(kind: Kind, rng: &mut Rng, pool: &[u64]) -> History {
     let n = rng.range(12, 40);
     for _ in 0..n {
         // the clock drifts towards and across the window
-        now += match rng.below(6) {
-            0 => 0,
-            1 => 1,
-            2 => cs.saturating_sub(now),
-            3 => ce.saturating_sub(now),
-            _ => rng.below(12),
+        now += match rng.below(12) {
+            0 | 1 => 0,
+            2 | 3 => 1,
+            4 => cs.saturating_sub(now + 1),
+            5 => cs.saturating_sub(now),
+            6 => ce.saturating_sub(now + 1),
+            7 => ce.saturating_sub(now),
+            _ => rng.below(5),
         };
         let near = |rng: &mut Rng, xs: &[u64]| -> u64 {
             if rng.chance(1, 12) {
@@ -446,7 +448,13 @@ fn random_history(kind: Kind, rng: &mut Rng, pool: &[u64]) -> History {
             }
         };
         let sender = if rng.chance(1, 10) { 62 } else { *rng.pick(&[60u64, 61]) };
-        let op = match rng.below(10) {
+        let mut roll = rng.below(10);
+        if now >= cs && roll <= 2 && rng.chance(3, 4) {
+            roll = rng.range(3, 9); // a started whitelist refuses every start update: try it less often
+        }
+        let op = match roll {
+            0..=2 if rng.chance(1, 2) && now + 1 < ce => Some(Op::UpdStart(rng.range(now + 1, ce))),
+            3..=5 if rng.chance(1, 2) => Some(Op::UpdEnd(if now >= cs { rng.range(cs, ce) } else { cs + rng.below(70) })),
             0..=2 => Some(Op::UpdStart(near(rng, &[cs, ce, now, GENESIS]))),
             3..=5 => Some(Op::UpdEnd(near(rng, &[cs, ce, now]))),
             6 => Some(Op::Remove(vec![*rng.pick(&[100u64, 101, 102, 103])])),
@@ -519,7 +527,7 @@ fn gen_histories(a: &Args) -> Vec<History> {
     for k in KINDS {
         v.extend(probes(k));
     }
-    let nrand = if a.thorough() { 400 } else { 30 };
+    let nrand = if a.thorough() { 1500 } else { 100 };
     for k in KINDS {
         for _ in 0..nrand {
             v.push(random_history(k, &mut rng, &pool));
